@@ -15,6 +15,8 @@ structure Spec where
   demOn : Bool := false           -- runOnDemand pair open (h+demand / h-demand)
   avail : Bool := false
   closed : Bool := false
+  od : Bool := false              -- an on-demand source / runOnDemand is configured (from the reset line)
+  redirect : Bool := false
   att : List Nat := []
   reqs : List (Nat × Nat) := []
   err : Option String := none
@@ -75,13 +77,16 @@ def specOp (sp : Spec) (m : State) (o : Drv.Op) (impl : String) : Spec :=
   let toks := Drv.implToks impl
   let isTick := match o with | .tick => true | _ => false
   match o with
-  | .reset _ => toks.foldl (specTok false) {}
+  | .reset c => toks.foldl (specTok false)
+      { od := c.conf.odStatic || c.conf.odPub, redirect := c.conf.kind == .redirect }
   | _ =>
     let (sp, newRid, onDemandStart) := match o with
       | .ev (.describe rid) => ({ sp with open_ := rid :: sp.open_ }, some rid, true)
       | .ev (.addReader rid r) => ({ sp with open_ := rid :: sp.open_, reqs := (rid, r) :: sp.reqs }, some rid, true)
       | .ev (.removeReader r) => ({ sp with att := sp.att.filter (· != r) }, none, false)
       | _ => (sp, none, false)
+    let sp0avail := sp.avail
+    let sp0closed := sp.closed
     let startSeen := toks.contains "src+" || toks.contains "h+demand"
     let attBefore := sp.att
     let sp := toks.foldl (specTok isTick) sp
@@ -92,6 +97,16 @@ def specOp (sp : Spec) (m : State) (o : Drv.Op) (impl : String) : Spec :=
           && !attBefore.isEmpty then
         sp.fail s!"on-demand source stopped by the close timer although readers {attBefore} are attached"
       else sp
+    -- start on first demand: with on-demand configured, a request that finds no stream is held and starts
+    -- the source / command; it is not turned away (fallback redirect, "no stream available")
+    let sp := match newRid with
+      | some rid =>
+        if sp0avail then sp
+        else if sp.od && !sp.redirect && !sp0closed &&
+            (toks.contains s!"q{rid}=fallback" || toks.contains s!"q{rid}=nostream") then
+          sp.fail s!"request {rid} was turned away although on-demand is configured (it must start the source and wait)"
+        else sp
+      | none => sp
     -- a request that stays on hold needs the on-demand source / command to be running (start on demand)
     let sp := match newRid with
       | some rid =>
